@@ -16,8 +16,11 @@ import (
 	"fmt"
 	"math"
 	"math/rand"
+	"runtime"
 	"sort"
 	"strconv"
+	"sync"
+	"sync/atomic"
 
 	"github.com/alibaba/RedisShake/pkg/rdb"
 
@@ -449,6 +452,60 @@ func rvRun(in []byte) (interface{}, error) {
 	for _, n := range []int{63, 64, 16383, 16384, 70000} {
 		encOne(rdbref.Value{Kind: "string", Str: bytes.Repeat([]byte{'z'}, n)}, "enc")
 		encOne(rdbref.Value{Kind: "list", List: [][]byte{bytes.Repeat([]byte{'y'}, n), []byte("-129")}}, "enc")
+	}
+	// ---------------------------------------------------------------- payloads that are KEPT: a batch serialised before any of it is used, and
+	// several workers serialising at once - what EncodeDump returned for one value must stay what it was
+	{
+		check := func(v rdbref.Value, p []byte) bool {
+			typ, body, _, perr := rdbref.ParseDump(p)
+			if perr != nil {
+				return false
+			}
+			got, _, derr := rdbref.DecodeValue(typ, body)
+			if derr != nil {
+				return false
+			}
+			same, num := rvSame(v, got)
+			return same && num
+		}
+		var vals []rdbref.Value
+		var pays [][]byte
+		for i := 0; i < 40; i++ {
+			v := rvValue(rnd, kinds[i%len(kinds)], 1+rnd.Intn(5), true)
+			if p, err := rdb.EncodeDump(rvToReal(v)); err == nil {
+				vals, pays = append(vals, v), append(pays, p)
+			}
+		}
+		bad := 0
+		for i := range pays {
+			if !check(vals[i], pays[i]) {
+				bad++
+			}
+		}
+		tr.Emit(tracer.Ev{"e": "batch", "mode": "held", "n": len(pays), "bad": bad, "ok": bad == 0})
+		var wg sync.WaitGroup
+		var cbad, cn int64
+		for g := 0; g < 8; g++ {
+			wg.Add(1)
+			go func(g int) {
+				defer wg.Done()
+				r := rand.New(rand.NewSource(cfg.Seed*31 + int64(g)))
+				for i := 0; i < 300; i++ {
+					v := rvValue(r, kinds[(i+g)%len(kinds)], 1+r.Intn(5), true)
+					p, err := rdb.EncodeDump(rvToReal(v))
+					if err != nil {
+						continue
+					}
+					runtime.Gosched()
+					atomic.AddInt64(&cn, 1)
+					if !check(v, p) {
+						atomic.AddInt64(&cbad, 1)
+					}
+				}
+			}(g)
+		}
+		wg.Wait()
+		tr.Emit(tracer.Ev{"e": "batch", "mode": "concurrent", "n": cn, "bad": cbad, "ok": cbad == 0})
 	}
 	// ---------------------------------------------------------------- dec: compact encodings of a known value
 	decOne := func(want rdbref.Value, enc rdbref.Enc) {
